@@ -10,7 +10,8 @@
     (the budget of each evaluation pass).  What is proved is therefore about the
     scheduler's decisions, not about pipeline timing. *)
 From Coq Require Import List Arith NArith Bool Lia.
-From VCu Require Import Sched SchedProofs.
+From VCu Require Import Sched SchedProofs SchedEmuTie.
+From VSys Require EmuLoop.
 Import ListNotations.
 
 (** No wavefront is released from its k-th barrier (w_pass = k, which is what
@@ -151,6 +152,30 @@ Theorem emu_resolve_never_panics : forall l l1 lg,
 Proof. exact emu_round_no_panic. Qed.
 Print Assumptions emu_resolve_never_panics.
 
+(** Emulator-side work-group completion: if every wavefront's program reaches
+    an s_endpgm (after any number of barriers, wavefronts may leave at
+    different barriers), runWG - with the explicit fuel bound 1 + total number
+    of segments built into [emu_run] - leaves its loop normally: no panic, no
+    wavefront runs off its program, and every wavefront has executed its
+    s_endpgm. For any number of wavefronts. *)
+Theorem emu_wg_completion : forall progs,
+  (forall p, In p progs -> In SEnd p) ->
+  exists lg, emu_run true progs = (EOk, lg) /\
+    forall j, j < length progs -> In (LEnd j) lg.
+Proof. exact emu_completes. Qed.
+Print Assumptions emu_wg_completion.
+
+(** The segment-level loop is an instance of C01's model of the same Go loop
+    (VSys.EmuLoop, generic in the instruction step): whenever it completes a
+    work-group, C01's [run_wg] with the same number of rounds finishes with
+    every wavefront completed. *)
+Theorem emu_agrees_with_C01_loop : forall progs lg,
+  emu_run true progs = (EOk, lg) ->
+  exists xs, EmuLoop.run_wg seg_step (emu_fuel progs) 1 progs tt = EmuLoop.Finished (xs, tt) /\
+             EmuLoop.all_completed xs = true.
+Proof. exact tie_run. Qed.
+Print Assumptions emu_agrees_with_C01_loop.
+
 (** Non-vacuity: a concrete history with two groups, a load, a wait count, a
     barrier, an early exit and a refused completion message reaches the states
     the theorems speak about. *)
@@ -167,6 +192,11 @@ Example demo_states :
   map w_pass (wfs s) = [1; 1; 0] /\ map w_arr (wfs s) = [0; 1; 0] /\
   sent s = [1] /\ internal s = [] /\ bbuf s = [] /\ crashed s = false.
 Proof. vm_compute. repeat split; reflexivity. Qed.
+
+Example emu_demo :
+  emu_run true [[SBar; SEnd]; [SEnd]; [SBar; SBar; SEnd]; [SBar; SEnd]] =
+  (EOk, [LBar 0; LEnd 1; LBar 2; LBar 3; LEnd 0; LBar 2; LEnd 3; LEnd 2]).
+Proof. vm_compute. reflexivity. Qed.
 
 Example demo_wait_blocks :
   let s := run true init (firstn 6 demo) in
